@@ -142,10 +142,72 @@ var aims = []aim{
 	}},
 }
 
+// pairRename plants the shape collision renaming must survive: a name whose renamed form (`x_`) is ALREADY
+// declared earlier in the same scope, then `x` itself colliding with something reserved or with a sibling that is
+// identified alike (`x`, `X`). Scopes: struct members, parameters of a non-void method, functions of a service,
+// definitions of a file.
+func pairRename(r *vl.Rng, p *Program) map[ident]string {
+	m := map[ident]string{}
+	switch r.Intn(4) {
+	case 0: // fields: read_ read | total_ total Total
+		for fi, f := range p.Files {
+			for _, s := range f.Structs {
+				if len(s.Fields) >= 3 && len(m) == 0 {
+					base := r.Pick([]string{"read", "write", "string", "total", "init_default", "get_x"})
+					m[ident{'f', fi, s.Name, s.Fields[0].Name}] = base + "_"
+					m[ident{'f', fi, s.Name, s.Fields[1].Name}] = base
+					m[ident{'f', fi, s.Name, s.Fields[2].Name}] = strings.ToUpper(base[:1]) + base[1:]
+				}
+			}
+		}
+	case 1: // parameters of a non-void method: r_ r | err_ err | p_ p
+		for fi, f := range p.Files {
+			for _, sv := range f.Services {
+				for _, fn := range sv.Functions {
+					if fn.Ret != nil && len(fn.Args) >= 2 && len(m) == 0 {
+						base := r.Pick([]string{"r", "err", "p", "ctx", "_result", "type"})
+						m[ident{'a', fi, sv.Name + "." + fn.Name, fn.Args[0].Name}] = base + "_"
+						m[ident{'a', fi, sv.Name + "." + fn.Name, fn.Args[1].Name}] = base
+					}
+				}
+			}
+		}
+	case 2: // functions: get_ get Get
+		for fi, f := range p.Files {
+			for _, sv := range f.Services {
+				if len(sv.Functions) >= 3 && len(m) == 0 {
+					base := r.Pick([]string{"get", "ping", "a_b"})
+					m[ident{'m', fi, sv.Name, sv.Functions[0].Name}] = base + "_"
+					m[ident{'m', fi, sv.Name, sv.Functions[1].Name}] = base
+					m[ident{'m', fi, sv.Name, sv.Functions[2].Name}] = strings.ToUpper(base[:1]) + base[1:]
+				}
+			}
+		}
+	case 3: // definitions: Item_ item Item (structs only: their New<X> must not collide with another definition)
+		for fi, f := range p.Files {
+			if len(f.Structs) >= 3 && len(m) == 0 {
+				base := r.Pick([]string{"item", "foo_bar", "url_id"})
+				m[ident{'s', fi, "", f.Structs[0].Name}] = base + "_"
+				m[ident{'s', fi, "", f.Structs[1].Name}] = base
+				m[ident{'s', fi, "", f.Structs[2].Name}] = strings.ToUpper(base[:1]) + base[1:]
+			}
+		}
+	}
+	return m
+}
+
 // stressRename returns a copy of p with up to n identifiers renamed from the wide pool (each candidate is kept
 // only if the program stays valid thrift: unique names where thrift wants them); what was applied is counted.
 func stressRename(r *vl.Rng, p *Program, n int, count func(string)) *Program {
 	cur := p
+	if r.Chance(35) {
+		if m := pairRename(r, cur); len(m) > 0 {
+			if q := rename(cur, m); valid(q) && uniqueMembers(q) {
+				count("stress.rename.pair")
+				cur = q
+			}
+		}
+	}
 	for i := 0; i < n; i++ {
 		ids := idents(cur)
 		if len(ids) == 0 {
